@@ -3,6 +3,7 @@ import DG.JsrVersion
 import DG.Decode
 import DG.BuildProto
 import DG.Prune
+import DG.Segment
 /-! Line-protocol driver: one request per line on stdin, one answer per line on stdout. -/
 open DG DG.Sexp
 
@@ -122,6 +123,18 @@ def handle (st : DState) (req : Sexp) : DState × String :=
         (st, DG.Build.showSt { stf with slots := slots, redirects := reds, log := [] })
       | none => (st, "OUT-OF-FUEL")
     | _, _, _, _, _ => (st, "bad-op")
+  | .list [.atom "segment", .list (.atom "roots" :: rs)] =>
+    match nats? rs with
+    | some rs =>
+      let sg := st.graph.segment rs
+      let showSlot : Slot → String
+        | .module _ => "m"
+        | .err _ c _ => s!"e{c}"
+        | .pending => "p"
+      let slots := (DG.Build.sortByKey sg.slots).map fun (k, sl) => s!"{k}:{showSlot sl}"
+      let reds := (DG.Build.sortByKey sg.redirects).map fun (a, b) => s!"{a}>{b}"
+      (st, joinSp (slots ++ reds ++ [s!"roots={sg.roots.length}"]))
+    | none => (st, "bad-op")
   | .list [.atom "valid"] =>
     (st, match st.graph.valid with | some e => e.show | none => "ok")
   | _ => (st, "bad-op")
